@@ -136,6 +136,8 @@ def _run_job(ctx, exe, wd, job, stats, samples):
         # that was explored - every edge of it is a real transition - and the evidence says so
         ctx.notes.append("graph %s: no fix-point within %d nodes, bounded exploration (depth %d)" % (job.name, job.maxnodes, info["depth"]))
     stats["transitions"] += info["edges"]
+    # trivial edges: setPollPriority to the priority a message already has (one per message and node when in the alphabet)
+    stats["trivial"] += info["nodes"] * len(job.prios) if "s" in job.alpha else 0
     stats["graphs"][job.name] = {"prios": job.prios, "alphabet": job.alpha, "setprios": job.setprios, "K": job.k,
                                  "nodes": info["nodes"], "edges": info["edges"], "depth": info["depth"],
                                  "restore": info["mode"], "product_states": 0, "fixpoint": not info["capped"]}
@@ -154,18 +156,20 @@ def run(ctx):
     ctx.level = "model_checking"
     wd = recs.workdir("C17")   # per process, removed at exit
     exe = build.build("c17_poll", ["c17_poll.cpp"], ["ebus", "utils_noclock"])
-    stats = {"states": 0, "transitions": 0, "graphs": {}, "traces": 0, "fidelity_nodes": 0, "unfaithful": []}
+    stats = {"states": 0, "transitions": 0, "graphs": {}, "traces": 0, "fidelity_nodes": 0, "unfaithful": [], "trivial": 0}
     samples = []
     design = {}
 
     # 1. S => P: the constants of the bounds hold on the design ------------------------------------------------------
     mcs = [("MC_Poll_nt.cfg", "N=4 {1,2,3,5} unperturbed, + vector top is arg-min", True),
-           ("MC_Poll_pert_q.cfg", "N=2 {1,2} all perturbations except re-add, K=1", True)]
+           ("MC_Poll_pert_q.cfg", "N=2 {1,2} all perturbations except re-add, K=1", True),
+           ("MC_Poll_readd.cfg", "N=2 (1,2) remove + re-add (new instance at g_lastPollOrder + priority), fix-point", True)]
     if ctx.thorough:
         mcs += [("MC_Poll_pert_t.cfg", "N=3 priorities (1,1,2), setprio {1,2} / add front / back, K=1", True),
-                ("MC_Poll_hi.cfg", "N=2 (1,2), setprio {1,7} / add front / back / condition use (7 -> 5), K=1", True)]
+                ("MC_Poll_hi.cfg", "N=2 (1,2), setprio {1,7} / add front / back / condition use (7 -> 5), K=1", True),
+                ("MC_Poll_readd_t.cfg", "N=3 (1,2,3) re-add + setprio {1,3} + front insertion, K=1", True)]
     mcs += [("MC_Poll_argmin.cfg", "vector top is arg-min under perturbation (design note, expected to be refuted)", False),
-            ("MC_Poll_readd.cfg", "re-added message (order 0): expected to be refuted at design level", False)]
+            ("MC_Poll_readd_pinned.cfg", "design before the repair of MessageMap::add (new instance keeps order 0): expected to be refuted", False)]
     for cfg, what, must in mcs:
         t0 = time.time()
         r = tlc.run("MCPoll", cfg, workers=8, timeout=1500, tag="C17-" + cfg + _PID)
@@ -179,14 +183,15 @@ def run(ctx):
     # 2. P on G + fidelity ---------------------------------------------------------------------------------------------
     jobs = [Job("n2full", [1, 2], "ntsaf", [1, 2, 3], 2),
             Job("n3add", [1, 2, 3], "ntaf", [1, 2, 3], 2),
-            Job("n2readd", [1, 2], "nr", [1, 2], 1, cap=12)]
+            Job("n2readd", [1, 2], "nr", [1, 2], 1, cap=12, maxnodes=8000)]
     if ctx.thorough:
         jobs = [Job("n2full", [1, 2], "ntsaf", [1, 2, 3], 2),
                 Job("n2cond7", [1, 2], "nsafc", [1, 7], 1),
                 Job("n3add", [1, 2, 3], "ntafc", [1, 2, 3], 2),
                 Job("n3prio", [1, 1, 2], "nts", [1, 2], 1),
-                Job("n2readd", [1, 2], "nr", [1, 2], 1, cap=24),
-                Job("n3readd", [1, 2, 3], "nr", [1, 2, 3], 1, cap=12)]
+                Job("n2readd", [1, 2], "nr", [1, 2], 1, cap=24, maxnodes=20000),
+                Job("n3readd", [1, 2, 3], "nr", [1, 2, 3], 1, cap=12, maxnodes=30000),
+                Job("n2readdmix", [1, 2], "nrsf", [1, 3], 1, cap=8, maxnodes=30000)]
     for job in jobs:
         _run_job(ctx, exe, wd, job, stats, samples)
 
@@ -227,8 +232,9 @@ def run(ctx):
         "states": stats["states"], "transitions": stats["transitions"],
         "traces_validated_against_impl": stats["traces"], "graphs": stats["graphs"],
         "edges_compared_with_S": stats["fidelity_nodes"], "random_steps": steps * len(runs),
-        "evaluations": stats["transitions"] + steps * len(runs), "distinct_nontrivial": stats["transitions"],
-        "rule": "graph edges are distinct (state,input) pairs of fix-point graphs of the real scheduler",
+        "evaluations": stats["transitions"] + steps * len(runs), "distinct_nontrivial": stats["transitions"] - stats["trivial"],
+        "rule": "graph edges are distinct (state,input) pairs of fix-point graphs of the real scheduler; trivial = setPollPriority "
+                "to the priority the message already has (subtracted); random steps are not counted as distinct",
         "samples": samples[:4],
     }
     ctx.assumptions = [
